@@ -116,6 +116,18 @@ func openStream(name string) (*stream, func()) {
 	}
 }
 
+var workDirOnce sync.Once
+var workDirPath string
+
+// a scratch directory under the stream's output directory; removed with it
+func workDir() string {
+	workDirOnce.Do(func() {
+		workDirPath = filepath.Join(outDir, "cwd")
+		must(os.MkdirAll(workDirPath, 0o755))
+	})
+	return workDirPath
+}
+
 func must(err error) {
 	if err != nil {
 		fmt.Fprintln(os.Stderr, "harness:", err)
@@ -164,6 +176,7 @@ var noRetry bool
 
 func runBinOnce(bin string, stdin []byte, timeout time.Duration, procs string, args ...string) runResult {
 	cmd := exec.Command(bin, args...)
+	cmd.Dir = workDir() // a relative -o value must land in scratch, never in the directory the check was started from
 	cmd.Stdin = bytes.NewReader(stdin)
 	var so, se bytes.Buffer
 	cmd.Stdout = &so
